@@ -253,13 +253,6 @@ Proof.
   - replace (starts_with [cDQ] (quoted v')) with true by reflexivity. rewrite decode_quoted. reflexivity.
 Qed.
 
-Lemma wf_obj_not_qt : forall o, wf_obj o = true -> starts_with sLTLT o = false.
-Proof.
-  intros o H. unfold wf_obj in H. apply orb_true_iff in H as [H|H].
-  - apply orb_true_iff in H as [H|H]; [now apply iri_prefix|now apply bnode_prefix].
-  - unfold kind_guess_stable in H. repeat (apply andb_true_iff in H as [H _]). now apply negb_true_iff in H.
-Qed.
-
 Lemma wf_obj_resolve : forall o, wf_obj o = true -> dd_ttl_term o = false -> resolve o = o.
 Proof.
   intros o H Hd. unfold wf_obj in H. apply orb_true_iff in H as [H|H].
